@@ -85,7 +85,18 @@ func (f *frame) callTarget(cc *ssa.CallCommon, fnVal *Value, args []Value, n *no
 			sc := x.newSpecCtx(f, n, st, x.entryState)
 			sc.anchor = pos
 			sc.bindArgs(x.S.Contracts[key], callee, cc, args)
-			g := sc.evalBool(a.Expr)
+			var g *Term
+			func() {
+				defer func() {
+					if r := recover(); r != nil {
+						if ee, ok := r.(*EngineError); ok {
+							panic(&EngineError{fmt.Sprintf("at call %s (%s) in %s depth %d, %d live locals: %s", site, x.P.Fset.Position(pos), FuncKey(f.fn), f.inlineDepth, len(st.locals), ee.Msg)})
+						}
+						panic(r)
+					}
+				}()
+				g = sc.evalBool(a.Expr)
+			}()
 			o := x.oblige("assert@"+site, a.Tags, st.pc, g, pos, a.Text)
 			o.Reveal = a.Reveal
 			o.By = a.By
@@ -596,8 +607,8 @@ func (x *Exec) appendBuiltin(st *State, s, t Value, rt types.Type, pos token.Pos
 		na := x.bulkCopy(base, Add(s.C[1], s.C[2]), src, so, n)
 		setElemArr(st, et, c, ref, na)
 	}
-	// appending nothing to a nil slice keeps it nil
-	return Value{T: rt, C: []*Term{Ite(And(Eq(n, Num(0)), fits), s.C[0], ref), s.C[1], newLen, capv}}
+	// (appending nothing to a nil slice keeps it nil: it fits, so ref is the old reference)
+	return Value{T: rt, C: []*Term{ref, s.C[1], newLen, capv}}
 }
 
 func (x *Exec) copyBuiltin(st *State, d, s Value) Value {
@@ -846,6 +857,12 @@ func (f *frame) havocLoop(l *loopInfo, st *State, n *node) {
 	if l.Spec != nil {
 		sc := f.invCtx(l, st, n)
 		x.havocModifies(sc, l.Spec.Modifies, st)
+	}
+	// whatever reference a local holds at the loop head was allocated before now
+	for _, v := range st.locals {
+		if len(v.C) > 0 && v.T != nil {
+			x.assume(TTrue, x.refsBelowClock(st, v), "clock")
+		}
 	}
 	if precise {
 		// the loop's frame is checked at every back edge against this state
